@@ -16,7 +16,7 @@ INSERT_KINDS = ("ListInsert", "DictInsert", "CallArg")
 
 from .C17 import clone_def
 
-from .C11 import pair_len
+from .C11 import cursor_sync, pair_len
 
 
 def check(repo: Repo, rep, tier):
@@ -27,6 +27,7 @@ def check(repo: Repo, rep, tier):
     same_type(repo, rep)
     clone_def(repo, rep)
     pair_len(repo, rep)
+    cursor_sync(repo, rep)
     apply_exh(repo, rep)
     ctx_restore(repo, rep)
 
